@@ -10,67 +10,10 @@ namespace MongoModel.Pipe.Proofs
 open MongoModel MongoModel.Pipe MongoModel.Spec MongoModel.Spec.Pipe MongoModel.Spec.Order
   MongoModel.Proofs.C11 MongoModel.Expr
 
-/-! ### expressions: the C04 theorem, and strict evaluation of non-operator arguments -/
+/-! ### expressions: the C04 theorem -/
 
 theorem evalExpr_of_reasons (e d : Val) (h : exprReasons e d = []) : evalExpr d e = specEval d e :=
   Proofs.C04.eval_eq_spec e d (by simp [exprInD, h])
-
-theorem evalExprStrict_nondoc (d e : Val) (h : ∀ fs, e ≠ .doc fs) :
-    evalExprStrict d e = evalExpr d e := by
-  cases e with
-  | doc fs => exact absurd rfl (h fs)
-  | str s => simp only [evalExprStrict, evalExpr, eval]; rfl
-  | _ => simp only [evalExprStrict, evalExpr, eval]
-
-/-! ### one variadic operator over non-operator operands that all have a value -/
-
-theorem eval_nondoc_ign (ign : Bool) (root : Val) (env : Fields) (x : Val)
-    (h : nonDoc x = true) : eval ⟨ign, root, env⟩ x = eval ⟨true, root, env⟩ x := by
-  cases x with
-  | doc fs => simp [nonDoc] at h
-  | str s => simp only [eval]; rfl
-  | _ => simp only [eval]
-
-theorem evalList_ign (ign : Bool) (root : Val) (env : Fields) (b₁ b₂ : Bool) :
-    ∀ (xs : List Val), (∀ x ∈ xs, nonDoc x = true) →
-    (∀ x ∈ xs, eval ⟨true, root, env⟩ x ≠ .ok none) →
-    evalList ⟨ign, root, env⟩ b₁ xs = evalList ⟨true, root, env⟩ b₂ xs
-  | [], _, _ => by simp only [evalList]
-  | x :: r, hb, hp => by
-    have ih := evalList_ign ign root env b₁ b₂ r (fun y hy => hb y (List.mem_cons_of_mem _ hy))
-      (fun y hy => hp y (List.mem_cons_of_mem _ hy))
-    have hx := hp x List.mem_cons_self
-    simp only [evalList, eval_nondoc_ign ign root env x (hb x List.mem_cons_self), ih]
-    cases he : eval ⟨true, root, env⟩ x with
-    | error e => rfl
-    | ok rv =>
-      cases rv with
-      | none => exact absurd he hx
-      | some v => rfl
-
-theorem evalOp_list_ign (ign : Bool) (root : Val) (env : Fields) (k : String) (xs : List Val)
-    (hk : listOps.contains k = true)
-    (hb : ∀ x ∈ xs, nonDoc x = true) (hp : ∀ x ∈ xs, eval ⟨true, root, env⟩ x ≠ .ok none) :
-    evalOp ⟨ign, root, env⟩ k (.arr xs) = evalOp ⟨true, root, env⟩ k (.arr xs) := by
-  simp only [evalOp, hk, if_true]
-  rw [evalList_ign ign root env (nullOnMissing ign k) (nullOnMissing true k) xs hb hp]
-
-/-- whether missing values propagate or read as null cannot matter when nothing is missing -/
-theorem eval_listOp_ign (ign : Bool) (root : Val) (env : Fields) (k : String) (xs : List Val)
-    (hk : listOps.contains k = true)
-    (hb : ∀ x ∈ xs, nonDoc x = true) (hp : ∀ x ∈ xs, eval ⟨true, root, env⟩ x ≠ .ok none) :
-    eval ⟨ign, root, env⟩ (.doc [(k, .arr xs)]) = eval ⟨true, root, env⟩ (.doc [(k, .arr xs)]) := by
-  have hop := evalOp_list_ign ign root env k xs hk hb hp
-  simp only [eval, List.length_cons, List.length_nil, Nat.lt_irrefl, decide_false, Bool.false_and,
-    Bool.false_eq_true, if_false, Nat.zero_add, evalDoc]
-  cases hcl : classify k <;> cases hm : mode k (.arr xs) <;>
-    simp only [bind, Except.bind, applyWhole, hop]
-
-theorem accListOps_listOps (k : String) (h : accListOps.contains k = true) :
-    listOps.contains k = true := by
-  simp only [accListOps, List.contains_cons, List.contains_nil, Bool.or_false, Bool.or_eq_true,
-    beq_iff_eq] at h
-  rcases h with h | h | h | h | h | h | h | h | h | h <;> subst h <;> decide
 
 theorem exprTags_nil (e : Val) (docs : List Val) (h : exprTags e docs = []) :
     ∀ d ∈ docs, exprReasons e d = [] := by
@@ -98,45 +41,6 @@ theorem mapOpt_cons_some {α β} {f : α → Option β} {x : α} {xs : List α} 
       simp only [hx, hr, Option.some.injEq] at h
       exact ⟨y, r, rfl, rfl, h.symm⟩
 
-/-- inside the domain of `accArgReasons` the code's strict evaluation of the accumulator argument
-    is the lenient one the C04 theorem speaks about -/
-theorem accArg_strict (e : Val) (g : List Val) (h : accArgReasons e g = []) :
-    ∀ d ∈ g, evalExprStrict d e = evalExpr d e := by
-  intro d hd
-  unfold accArgReasons at h
-  split at h
-  · rename_i k xs
-    split at h
-    · rename_i hc
-      simp only [Bool.and_eq_true] at hc
-      have hall := (flatMap_nil_iff' _ _).1 h d hd
-      have hb : ∀ x ∈ xs, nonDoc x = true := fun x hx => List.all_eq_true.mp hc.2 x hx
-      have hp : ∀ x ∈ xs, eval (Ctx.init true d) x ≠ .ok none := by
-        intro x hx
-        have hxr := (flatMap_nil_iff' _ _).1 hall x hx
-        simp only [List.append_eq_nil_iff] at hxr
-        have h1 : exprReasons x d = [] := (tag_nil _ _).1 hxr.1
-        have h2 := evalExpr_of_reasons x d h1
-        cases hv : exprValue x d with
-        | none => simp [hv] at hxr
-        | some r =>
-          cases r with
-          | none => simp [hv] at hxr
-          | some v =>
-            have := exprValue_some _ _ _ hv
-            intro hbad
-            have h3 : evalExpr d x = .ok none := hbad
-            rw [h2, this] at h3
-            cases h3
-      exact eval_listOp_ign false d _ k xs (accListOps_listOps k hc.1) hb hp
-    · simp at h
-  · simp at h
-  · rename_i hne1 hne2
-    apply evalExprStrict_nondoc
-    intro fs hfs
-    subst hfs
-    exact hne2 fs rfl
-
 /-! ### keys -/
 
 theorem keyed_eq_spec (idExpr : Val) : ∀ (docs : List Val) (kds : List (Val × Val)),
@@ -157,20 +61,17 @@ theorem keyed_eq_spec (idExpr : Val) : ∀ (docs : List Val) (kds : List (Val ×
 
 /-! ### accumulator values -/
 
-theorem accValues_eq_spec (e : Val) :
+theorem accValues_eq_spec (fl : Bool) (e : Val) :
     ∀ (g : List Val) (vals : List (Option Val)),
-    (∀ d ∈ g, evalExprStrict d e = evalExpr d e) →
     (∀ d ∈ g, exprReasons e d = []) → mapOpt (exprValue e) g = some vals →
-    accValues e g = .ok (specPush vals)
-  | [], vals, _, _, h => by simp [mapOpt] at h; subst h; rfl
-  | d :: ds, vals, he, hD, h => by
+    accValues fl e g = .ok (seenValues fl vals)
+  | [], vals, _, h => by simp [mapOpt] at h; subst h; cases fl <;> rfl
+  | d :: ds, vals, hD, h => by
     obtain ⟨y, r, h1, h2, rfl⟩ := mapOpt_cons_some h
-    have ih := accValues_eq_spec e ds r (fun x hx => he x (List.mem_cons_of_mem _ hx))
-      (fun x hx => hD x (List.mem_cons_of_mem _ hx)) h2
+    have ih := accValues_eq_spec fl e ds r (fun x hx => hD x (List.mem_cons_of_mem _ hx)) h2
     have := exprValue_some _ _ _ h1
-    simp only [accValues, he d List.mem_cons_self,
-      evalExpr_of_reasons e d (hD d List.mem_cons_self), this, ih]
-    cases y <;> simp [specPush]
+    simp only [accValues, evalExpr_of_reasons e d (hD d List.mem_cons_self), this, ih]
+    cases y <;> cases fl <;> simp [seenValues, specPush]
 
 /-! ### one accumulator -/
 
@@ -189,24 +90,35 @@ theorem specPush_push (vals : List (Option Val)) :
 
 theorem sumReasons_nil (vs : List Val) (h : sumReasons vs = []) : ∀ v ∈ vs, sumOk v = true := by
   intro v hv
-  simp only [sumReasons, List.append_eq_nil_iff] at h
-  have h1 : vs.any isBoolV = false := by
-    cases hb : vs.any isBoolV with
-    | false => rfl
-    | true => simp [hb] at h
+  simp only [sumReasons] at h
   have h2 : vs.any isDblV = false := by
     cases hb : vs.any isDblV with
     | false => rfl
     | true => simp [hb] at h
-  have a := List.any_eq_false.mp h1 v hv
   have b := List.any_eq_false.mp h2 v hv
-  simp only [sumOk, Bool.and_eq_true, Bool.not_eq_true']
-  exact ⟨by simpa using a, by simpa using b⟩
+  simpa [sumOk] using b
 
-/-- every accumulator of the domain computes the oracle's value -/
+theorem seenValues_false (vals : List (Option Val)) : seenValues false vals = specPush vals := rfl
+
+/-- every accumulator of the domain computes the oracle's value from what it sees of the values
+    of its expression -/
 theorem accApply_eq_spec (op : String) (vals : List (Option Val)) (v : Val)
     (hD : accReasons op vals = []) (hs : specAcc op vals = some v) :
-    accApply op (specPush vals) = .ok v := by
+    accApply op (seenValues (op = "$first" || op = "$last") vals) = .ok v := by
+  by_cases h4 : op = "$first"
+  · subst h4
+    simp only [specAcc, show ¬ ("$first" = "$sum") by decide, show ¬ ("$first" = "$avg") by decide,
+      show ¬ ("$first" = "$min") by decide, show ¬ ("$first" = "$max") by decide, if_false,
+      if_true, Option.some.injEq] at hs
+    simp only [decide_true, Bool.true_or, acc_first_seen, hs]
+  by_cases h5 : op = "$last"
+  · subst h5
+    simp only [specAcc, show ¬ ("$last" = "$sum") by decide, show ¬ ("$last" = "$avg") by decide,
+      show ¬ ("$last" = "$min") by decide, show ¬ ("$last" = "$max") by decide,
+      show ¬ ("$last" = "$first") by decide, if_false, if_true, Option.some.injEq] at hs
+    simp only [decide_true, Bool.or_true, acc_last_seen, hs]
+  have hfl : (decide (op = "$first") || decide (op = "$last")) = false := by simp [h4, h5]
+  rw [hfl, seenValues_false]
   by_cases h1 : op = "$sum"
   · subst h1
     simp only [specAcc, if_true, Option.some.injEq] at hs
@@ -226,48 +138,26 @@ theorem accApply_eq_spec (op : String) (vals : List (Option Val)) (v : Val)
     simp only [specAvgInt, specInts_push] at hs ⊢
     exact hs
   by_cases h3 : op = "$min" ∨ op = "$max"
-  · have hone : oneClass (specPush vals) = true := by
-      cases ho : oneClass (specPush vals) with
+  · have hone : (specPush vals).all orderScalar = true := by
+      cases ho : (specPush vals).all orderScalar with
       | true => rfl
-      | false =>
-        rcases h3 with rfl | rfl <;>
-          simp [accReasons, ho] at hD <;> split at hD <;> simp at hD
+      | false => rcases h3 with rfl | rfl <;> simp [accReasons, ho] at hD
     rcases h3 with rfl | rfl
     · simp only [specAcc, show ¬ ("$min" = "$sum") by decide, show ¬ ("$min" = "$avg") by decide,
         if_false, if_true, Option.some.injEq] at hs
       simp only [accApply, show ¬ ("$min" = "$sum") by decide, show ¬ ("$min" = "$avg") by decide,
-        show ¬ ("$min" = "$first") by decide, show ¬ ("$min" = "$last") by decide, Bool.or_self,
-        decide_false, Bool.false_eq_true, if_false, if_true, acc_minmax false _ hone, ← hs]
+        show ¬ ("$min" = "$first") by decide, show ¬ ("$min" = "$last") by decide,
+        if_false, if_true, acc_minmax false _ hone, ← hs]
       simp only [specExtremum_eq, specPush_push]
     · simp only [specAcc, show ¬ ("$max" = "$sum") by decide, show ¬ ("$max" = "$avg") by decide,
         show ¬ ("$max" = "$min") by decide, if_false, if_true, Option.some.injEq] at hs
       simp only [accApply, show ¬ ("$max" = "$sum") by decide, show ¬ ("$max" = "$avg") by decide,
         show ¬ ("$max" = "$first") by decide, show ¬ ("$max" = "$last") by decide,
-        show ¬ ("$max" = "$min") by decide, Bool.or_self,
-        decide_false, Bool.false_eq_true, if_false, if_true, acc_minmax true _ hone, ← hs]
+        show ¬ ("$max" = "$min") by decide,
+        if_false, if_true, acc_minmax true _ hone, ← hs]
       simp only [specExtremum_eq, specPush_push]
   have h3a : op ≠ "$min" := fun h => h3 (Or.inl h)
   have h3b : op ≠ "$max" := fun h => h3 (Or.inr h)
-  by_cases h4 : op = "$first"
-  · subst h4
-    simp only [specAcc, show ¬ ("$first" = "$sum") by decide, show ¬ ("$first" = "$avg") by decide,
-      show ¬ ("$first" = "$min") by decide, show ¬ ("$first" = "$max") by decide, if_false,
-      if_true, Option.some.injEq] at hs
-    have hf : firstOk vals = true := by
-      cases hf : firstOk vals with
-      | true => rfl
-      | false => simp [accReasons, hf] at hD
-    rw [acc_first, specFirst_present vals hf, hs]
-  by_cases h5 : op = "$last"
-  · subst h5
-    simp only [specAcc, show ¬ ("$last" = "$sum") by decide, show ¬ ("$last" = "$avg") by decide,
-      show ¬ ("$last" = "$min") by decide, show ¬ ("$last" = "$max") by decide,
-      show ¬ ("$last" = "$first") by decide, if_false, if_true, Option.some.injEq] at hs
-    have hf : firstOk vals.reverse = true := by
-      cases hf : firstOk vals.reverse with
-      | true => rfl
-      | false => simp [accReasons, hf] at hD
-    rw [acc_last, specLast_present vals hf, hs]
   by_cases h6 : op = "$push"
   · subst h6
     simp only [specAcc, show ¬ ("$push" = "$sum") by decide, show ¬ ("$push" = "$avg") by decide,
@@ -291,13 +181,10 @@ theorem accApply_eq_spec (op : String) (vals : List (Option Val)) (v : Val)
       show ¬ ("$addToSet" = "$push") by decide, Bool.or_self, decide_false, Bool.false_eq_true,
       if_false, if_true] at hD
     have := (flatMap_nil_iff' _ _).1 hD x hx
-    simp only [setOk, Bool.and_eq_true]
+    simp only [setOk]
     cases hk : groupKeyOk x with
-    | false => simp [hk] at this
-    | true =>
-      cases ht : (x.truthy || !notNull x) with
-      | true => exact ⟨rfl, rfl⟩
-      | false => simp [hk, ht] at this
+    | true => rfl
+    | false => simp only [hk, Bool.false_eq_true, if_false] at this; split at this <;> simp at this
   · simp [specAcc, h1, h2, h3a, h3b, h4, h5, h6, h7] at hs
 
 /-! ### the accumulator fields of one group -/
@@ -316,8 +203,7 @@ theorem accumulate_eq_spec : ∀ (options : Fields) (g : List Val) (fs : Fields)
       match spec, hD1, hs with
       | .doc [(op, e)], hD1, hs =>
         simp only [List.append_eq_nil_iff] at hD1
-        obtain ⟨⟨he, htags⟩, hacc⟩ := hD1
-        have he' := accArg_strict e g he
+        obtain ⟨htags, hacc⟩ := hD1
         cases hv : mapOpt (exprValue e) g with
         | none => simp [hv] at hs
         | some vals =>
@@ -333,7 +219,7 @@ theorem accumulate_eq_spec : ∀ (options : Fields) (g : List Val) (fs : Fields)
               obtain ⟨ih1, ih2⟩ := accumulate_eq_spec rest g r hD2 hr
               refine ⟨?_, ?_⟩
               · simp only [accumulate, hn, if_false,
-                  accValues_eq_spec e g vals he' (exprTags_nil e g htags) hv,
+                  accValues_eq_spec _ e g vals (exprTags_nil e g htags) hv,
                   accApply_eq_spec op vals v hacc ha, ih1]
               · intro kv hkv
                 rcases List.mem_cons.mp hkv with rfl | h
@@ -428,7 +314,7 @@ theorem group_eq_spec_sorted (opts : Val) (docs s : List Val)
     | none => simp [hid] at hs
     | some idExpr =>
       simp only [hid, List.append_eq_nil_iff] at hD hs
-      obtain ⟨⟨hfalsy, htags⟩, hrest⟩ := hD
+      obtain ⟨htags, hrest⟩ := hD
       cases hk : specKeyed idExpr docs with
       | none => simp [hk] at hs
       | some kds =>
@@ -447,7 +333,7 @@ theorem group_eq_spec_sorted (opts : Val) (docs s : List Val)
           have hall : ∀ r ∈ isort ltg (specGroups kds), accFieldReasons options r.2 = [] :=
             fun r hr => (flatMap_nil_iff' _ _).1 haccs r ((isort_perm ltg _).mem_iff.1 hr)
           have hemit := emitGroups_eq_spec options _ sd hall hsd
-          by_cases ht : idExpr.truthy = true
+          by_cases ht : Expr.isNull idExpr = false
           · have hshallow : kds.all (fun kd => keyShallow kd.1) = true := by
               simp only [List.all_eq_true]; intro p hp; exact keyShallow_of_ok _ (hK p hp)
             have hperm : (isort ltp kds).Perm kds := isort_perm _ _
@@ -455,25 +341,18 @@ theorem group_eq_spec_sorted (opts : Val) (docs s : List Val)
               fun p hp => hK p (hperm.mem_iff.1 hp)
             have hruns := groupRuns_sorted_eq_spec _ (isort ltp kds) (Nat.le_refl _) hKs
               (isort_sorted strictWeak_pairs kds)
-            simp only [groupStage, hid, ht, if_true, hkeyed, hshallow, Bool.not_true,
-              Bool.false_eq_true, if_false, group_sort_eq kds hK]
+            simp only [groupStage, hid, ht, Bool.not_false, if_true, hkeyed, hshallow,
+              Bool.not_true, Bool.false_eq_true, if_false, group_sort_eq kds hK]
             rw [hruns, specGroups_isort]
             exact hemit
-          · -- a null `_id` over a non-empty input: one group
+          · -- a null `_id`: one group over a non-empty input, none over no input
             have hnull : idExpr = .null := by
-              cases hnn : notNull idExpr with
-              | false => cases idExpr <;> simp_all [notNull]
-              | true => simp [ht, hnn] at hfalsy
+              cases idExpr <;> simp_all [Expr.isNull]
             subst hnull
-            have hne : docs.isEmpty = false := by
-              cases he : docs.isEmpty with
-              | false => rfl
-              | true => simp [ht, notNull, he] at hfalsy
             have hkd : kds = docs.map (fun x => (Val.null, x)) := by
               have h2 := specKeyed_docs _ _ _ hk
               have h1 : ∀ p ∈ kds, p.1 = Val.null := by
                 intro p hp
-                have hp2 : p.2 ∈ docs := by rw [← h2]; exact List.mem_map_of_mem hp
                 have := (keyed_ok _ _ _ hkeyed).2 p hp
                 simp only [groupKey, evalExpr, eval] at this
                 exact (Except.ok.inj this).symm
@@ -483,10 +362,15 @@ theorem group_eq_spec_sorted (opts : Val) (docs s : List Val)
               intro p hp
               simp [← h1 p hp]
             cases docs with
-            | nil => simp at hne
+            | nil =>
+              rw [hkd] at hemit
+              simp only [groupStage, hid, Expr.isNull, Bool.not_true, Bool.false_eq_true,
+                if_false, List.isEmpty_nil, if_true]
+              simpa [specGroups_nil, isort] using hemit
             | cons d ds =>
               rw [hkd, specGroups_single] at hemit
-              simp only [groupStage, hid, ht, Bool.false_eq_true, if_false]
+              simp only [groupStage, hid, Expr.isNull, Bool.not_true, Bool.false_eq_true,
+                if_false, List.isEmpty_cons]
               simpa [isort, insertBy] using hemit
 
 /-! ### … and up to the order of the groups -/
